@@ -593,6 +593,18 @@ func TestC03(t *testing.T) {
 			return genWordBoundaryTranspose(rt, op)
 		})
 	}
+	// matrices and rank-3 tensors with sides up to 9 (the in-place kernels follow permutation cycles whose
+	// structure depends on the sides)
+	for _, op := range []string{"pkgTranspose", "T+Transpose"} {
+		op := op
+		cell(t, "C03", "C03.allperms", "allperms/"+op+"/sides-to-9", nCases(8, 120), func(rt *rapid.T) Case {
+			shape := []int{rapid.IntRange(2, 9).Draw(rt, "m"), rapid.IntRange(2, 9).Draw(rt, "n")}
+			if rapid.IntRange(0, 3).Draw(rt, "r3") == 0 {
+				shape = append(shape, rapid.IntRange(2, 5).Draw(rt, "k"))
+			}
+			return &C03AllPerms{DT: rapid.SampledFrom([]string{"int8", "int16", "float32", "float64", "complex128", "string", "rec24"}).Draw(rt, "dt"), Shape: shape, Op: op, L: Layout{Root: "rm"}}
+		})
+	}
 	for _, op := range []string{"T", "SafeT", "pkgTranspose", "T+Transpose"} {
 		for rank := 2; rank <= maxRank; rank++ {
 			op, rank := op, rank
